@@ -70,6 +70,14 @@ CHECKS = {
    "deviation-bounded exhaustive fault enumeration: the dependency-call sequence of each operation is recorded, then every single call, every pair of calls (bound 2) and every persistent suffix is made to fail with every applicable fault kind at the caller-supplied seams (crypto.Signer, afero.Fs, io.ReaderAt/io.Reader)",
    "For 13 operations every position of the recorded dependency-call sequence is failed in turn (all fault kinds), then all pairs and all persistent suffixes; each run's outcome class, returned value, object state and filesystem trace are compared with the fault-free run. Exhaustive for deviation bounds 1 and 2 over the sequences the operations issue.",
    "Faults only at caller-supplied seams; transient reader faults may be survived with the correct value (debug/pe swallows some read errors), persistent ones may not; short reads are legal io.Reader behaviour and must not change the value.", "DESIGN.md section 4 C15"),
+ "C13": ("exploration", "E-shape + E-box",
+   "deviation-bounded exhaustive enumeration of malformed images and signature blobs (every header field x boundary alphabet, all field pairs, all truncations, C04 derivation set, all short strings) executed through the whole read-only API in sandboxed workers with outcome classification",
+   "Every input of the bounded neighbourhoods is driven through Parse/Signatures/Hash/Bytes/Open/Verify (images) and the three blob entry points inside memory-limited worker processes; only 'returned a value or error' is accepted; panic, exit (log shim), OOM death, hang (watchdog) and input-unrelated allocation are violations attributed to the exact input. Exhaustive for deviation bound 2 over the listed fields and alphabets.",
+   "Not all byte strings: inputs needing three coordinated field changes are not explored; proportionality is decided by generous fixed thresholds (64 MiB + 64 x input) and a liveness watchdog, not by a complexity measurement.", "DESIGN.md section 4 C13"),
+ "C14": ("exploration", "E-shape + E-box + static site scan",
+   "per-decoder bounded exhaustive enumeration (all truncations of seeds, length/size/type fields x boundary alphabet and pairs, full 256x256 device-path (type, sub-type) sweep, all short strings over small alphabets, single-byte rewrites of small seeds) in sandboxed workers; AST scan of all termination call sites against a committed baseline",
+   "Every decoder entry point the statement lists is executed on every input of its bounded neighbourhood (including Format() of every returned device-path node and the in-memory store's descriptor probe); only 'returned' is accepted. The static scan enumerates all log.Fatal/os.Exit/panic/BytesOrPanic call sites of the library packages in the current tree; new sites are reported as coverage goals.",
+   "Same limits as C13; the static part over-approximates (remaining 9 sites are encoders writing to in-memory buffers) and is never an alarm by itself.", "DESIGN.md section 4 C14"),
 }
 
 NOT_YET = "check not built yet in this round (planned, see DESIGN.md section 4); no claim is made"
